@@ -105,6 +105,15 @@ func runC11(c *Ctx) {
 		}
 	}
 	c.runControl("R11l nil result control (ctl/idxin.Tag)", "idxin.Tag", nilResultIndexed)
+	c.Rule("R11o", "the xz decoder's dictionary limit is a constant of at most 64 MiB", 2)
+	for _, f := range xzDictionaryCapped(p) {
+		c.Check(f.OK, "R11o", f.Key, f.Pos, "", f.Detail)
+	}
+	c.Rule("R11p", "a pointer result that is nil whenever its function fails is dereferenced only where the failure was excluded (module-wide)", 20)
+	for _, f := range failedResultDereferenced(p) {
+		c.Check(f.OK, "R11p", f.Key, f.Pos, "", f.Detail, f.Path...)
+	}
+	c.runControl("R11p failed result control (ctl/idxin.Arch)", "idxin.Arch", failedResultDereferenced)
 	c.Rule("R11n", "the table a stream's chain was validated against is the table it is followed through: one cutoff predicate at every site (shared with C18 R18e)", 5)
 	c18RuleCutoff = "R11n"
 	c18Cutoff(c, p.pkgFuncs("lib/comdoc"))
